@@ -37,7 +37,7 @@ Inductive exec_result :=
 | ExFail (e : vm_err)            (* (true, result, nil), result.Err = e <> nil *)
 | ExOk (used maxUsed : N).       (* (false, result, nil) *)
 
-(* gasestimator.go:207-225 execute *)
+(* gasestimator.go:208-226 execute *)
 Definition execute (run : N -> run_result) (gas : N) : exec_result :=
   match run gas with
   | RunErrIntrinsic => ExFailNil
@@ -129,11 +129,26 @@ Definition initial_hi (p : params) : est_result + N :=
       if negb (p_gas_cap p =? 0) && (p_gas_cap p <? hi) then inr (p_gas_cap p) else inr hi
   end.
 
-(* gasestimator.go:124-125 *)
+(* a plain value transfer: no data, a destination, no code there (l.125-126) *)
 Definition plain_transfer (p : params) : bool :=
   (p_data_len p =? 0) && negb (p_to_nil p) && (p_code_size p =? 0).
 
-(* ---- IEEE-754 binary64, as much as l.176 needs ------------------------------
+(* Two former behaviours of the shortcut, kept as flags for documentation only; the
+   current code is [current] (both false):
+   - before 10bd791e6e the shortcut did not compare params.TxGas with hi;
+   - before 2d92053e8d it was also taken under Amsterdam rules. *)
+Record legacy := { lg_ignore_hi : bool; lg_after_amsterdam : bool }.
+Definition current : legacy := {| lg_ignore_hi := false; lg_after_amsterdam := false |}.
+
+(* gasestimator.go:125-126:
+   len(call.Data) == 0 && hi >= params.TxGas && !isAmsterdam, then
+   call.To != nil && GetCodeSize(To) == 0 *)
+Definition shortcut_applies (lg : legacy) (p : params) (hi : N) : bool :=
+  (p_data_len p =? 0) && (lg_ignore_hi lg || (TxGas <=? hi))
+  && (lg_after_amsterdam lg || negb (p_is_amsterdam p))
+  && (negb (p_to_nil p) && (p_code_size p =? 0)).
+
+(* ---- IEEE-754 binary64, as much as l.177 needs ------------------------------
    A positive double is represented exactly as a fraction (num, den), den a power
    of two.  [rnd53 n d] rounds the positive rational n/d to the nearest double,
    ties to even (no overflow/subnormals can occur for the magnitudes involved:
@@ -151,7 +166,7 @@ Definition rnd53 (n d : N) : N * N :=
   let m := if (0 <? drop) && up then m + 1 else m in
   (m * 2 ^ drop, 2 ^ s).
 
-(* gasestimator.go:171-178: opts.ErrorRatio > 0 && float64(hi-lo)/float64(hi) < opts.ErrorRatio
+(* gasestimator.go:172-179: opts.ErrorRatio > 0 && float64(hi-lo)/float64(hi) < opts.ErrorRatio
    with ErrorRatio the double rnum / 2^rk *)
 Definition er_exit_float (rnum rk : N) (hi lo : N) : bool :=
   if rnum =? 0 then false else
@@ -163,14 +178,14 @@ Definition er_exit_float (rnum rk : N) (hi lo : N) : bool :=
 
 (* ---- Estimate ---------------------------------------------------------------- *)
 
-(* gasestimator.go:180-186: the bisection point with its low-side clamp; uint64 wrap kept *)
+(* gasestimator.go:181-187: the bisection point with its low-side clamp; uint64 wrap kept *)
 Definition mid_of (lo hi : N) : N :=
   let mid := (lo + ((hi + W64 - lo) mod W64) / 2) mod W64 in
   if (lo * 2) mod W64 <? mid then (lo * 2) mod W64 else mid.
 
-(* gasestimator.go:149 *)
+(* gasestimator.go:150 *)
 Definition lo_of_used (used : N) : N := (used + W64 - 1) mod W64.
-(* gasestimator.go:154 *)
+(* gasestimator.go:155 *)
 Definition optimistic_limit (maxUsed : N) : N :=
   ((((maxUsed + CallStipend) mod W64) * 64) mod W64) / 63.
 
@@ -180,12 +195,12 @@ Definition succeeds (exec : N -> exec_result) (g : N) : bool :=
 
 Section Estimate.
   Variable exec : N -> exec_result.      (* execute(ctx, call, opts, gas) *)
-  Variable er_exit : N -> N -> bool.     (* hi lo: the error-ratio early exit of l.171-178 *)
+  Variable er_exit : N -> N -> bool.     (* hi lo: the error-ratio early exit of l.172-179 *)
 
   (* number of iterations that always suffices under the guards (EstimatorProofs.v) *)
   Definition search_fuel : nat := 130.
 
-  (* gasestimator.go:170-200; [tr] accumulates the probed gas limits, newest first *)
+  (* gasestimator.go:171-201; [tr] accumulates the probed gas limits, newest first *)
   Fixpoint search (fuel : nat) (lo hi : N) (tr : list N) : est_result * list N :=
     if (lo + 1) mod W64 <? hi then
       match fuel with
@@ -201,7 +216,7 @@ Section Estimate.
       end
     else (EstOk hi, tr).
 
-  (* gasestimator.go:132-200, from the first probe on *)
+  (* gasestimator.go:133-201, from the first probe on *)
   Definition estimate_from (fuel : nat) (hi : N) (tr : list N) : est_result * list N :=
     match exec hi with
     | ExBail c => (EstErrBail c, hi :: tr)
@@ -211,8 +226,8 @@ Section Estimate.
     | ExFail VmNone => (EstErrAllowance hi, hi :: tr)   (* not produced by execute *)
     | ExOk used maxUsed =>
         let tr := hi :: tr in
-        let lo := lo_of_used used in                  (* l.149 *)
-        let opt := optimistic_limit maxUsed in        (* l.154 *)
+        let lo := lo_of_used used in                  (* l.150 *)
+        let opt := optimistic_limit maxUsed in        (* l.155 *)
         if opt <? hi then
           match exec opt with
           | ExBail c => (EstErrBail c, opt :: tr)
@@ -222,12 +237,12 @@ Section Estimate.
         else search fuel lo hi tr
     end.
 
-  (* gasestimator.go:53-201 Estimate *)
-  Definition estimate_fuel (fuel : nat) (p : params) : est_result * list N :=
+  (* gasestimator.go:53-202 Estimate *)
+  Definition estimate_fuel (lg : legacy) (fuel : nat) (p : params) : est_result * list N :=
     match initial_hi p with
     | inl e => (e, [])
     | inr hi =>
-        if plain_transfer p then
+        if shortcut_applies lg p hi then
           match exec TxGas with
           | ExOk _ _ => (EstOk TxGas, [TxGas])
           | _ => estimate_from fuel hi [TxGas]
@@ -235,7 +250,8 @@ Section Estimate.
         else estimate_from fuel hi []
     end.
 
-  Definition estimate (p : params) : est_result * list N := estimate_fuel search_fuel p.
+  (* the current code *)
+  Definition estimate (p : params) : est_result * list N := estimate_fuel current search_fuel p.
 End Estimate.
 
 (* the oracle given as data: a finite table of recorded answers; a gas limit not
